@@ -211,7 +211,7 @@ fn probe(v: V) {
 fn run_value(p: &Value, out: &mut Outcome) {
     let seed = p["vseed"].as_u64().unwrap_or(1);
     let mut r = Rng::new(seed);
-    let budget = p["endpoints"].as_u64().unwrap_or(4).min(63) as u32;
+    let budget = p["endpoints"].as_u64().unwrap_or(4).min(66) as u32;
     let pad = p["pad"].as_u64().unwrap_or(0).min(4 << 20) as usize;
     let mut b = Builder { r: &mut r, next_cid: 1, budget, peers: vec![], pad };
     // top level: a list so that the endpoint budget is actually used
@@ -291,7 +291,9 @@ fn run_value(p: &Value, out: &mut Outcome) {
     });
     let blocked = sim::settle();
     let evs = hist::events();
-    if let Some(e) = evs.iter().find(|e| e.op == "send.err") {
+    // up to 63 descriptors always fit (one more is needed for a multi-packet message); from 64 on a
+    // refusal is legitimate (C15's subject) - but whatever is accepted must still arrive intact
+    if let Some(e) = evs.iter().find(|e| e.op == "send.err").filter(|_| n_ep <= 63) {
         out.viol("send-refused:send", format!("a value with {} endpoints (within transport capacity) was refused: {}", n_ep, e.s));
     }
     match evs.iter().find(|e| e.op == "recv.ok") {
@@ -332,6 +334,7 @@ fn run_value(p: &Value, out: &mut Outcome) {
     }
     out.nontrivial = n_ep >= 2;
     out.probe("endpoints", n_ep as u64);
+    out.probe("at_or_over_capacity", (n_ep >= 64) as u64);
     out.probe("value_cases", 1);
     out.sample = json!({"part": "value", "endpoints": n_ep, "pad": pad, "shape": &sent_shape[..sent_shape.len().min(200)]});
 }
@@ -519,7 +522,7 @@ impl Scenario for C04S {
         }
     }
     fn rule(&self) -> &'static str {
-        "case = either (value) a seeded nested value (lists, options, pairs, maps, plain data) embedding 0..63 endpoints of mixed kinds (sender, receiver, opaque sender, bytes sender/receiver) and regions at random positions, small or padded to multi-packet size, received by a thread or a sim-process that compares structure/position and probes every endpoint with a nonce; or (chain) a receiver transferred over 1..5 hops between threads and sim-processes, each holder consuming 0..k pending messages before passing it on, while 1..3 senders keep sending before, during and after the hops; non-trivial = >=2 endpoints, or >=1 hop with deliveries; distinct = distinct (case, schedule hash)"
+        "case = either (value) a seeded nested value (lists, options, pairs, maps, plain data) embedding 0..65 endpoints of mixed kinds (from 64 on a refusal is accepted, an acceptance must still deliver everything) (sender, receiver, opaque sender, bytes sender/receiver) and regions at random positions, small or padded to multi-packet size, received by a thread or a sim-process that compares structure/position and probes every endpoint with a nonce; or (chain) a receiver transferred over 1..5 hops between threads and sim-processes, each holder consuming 0..k pending messages before passing it on, while 1..3 senders keep sending before, during and after the hops; non-trivial = >=2 endpoints, or >=1 hop with deliveries; distinct = distinct (case, schedule hash)"
     }
     fn gen(&self, seed: u64, idx: u64, _tier: Tier, variant: &str) -> Value {
         let mut r = Rng::stream(seed, idx.wrapping_mul(2654435761).wrapping_add(0xC04));
@@ -532,7 +535,7 @@ impl Scenario for C04S {
         if r.chance(1, 2) {
             let big = r.chance(1, 8);
             json!({"sim": sim, "part": "value", "vseed": r.next(), "items": r.range(1, 12),
-                   "endpoints": if big { r.range(40, 63) } else { r.range(0, 12) }, "fill": big,
+                   "endpoints": if big { r.range(40, 65) } else { r.range(0, 12) }, "fill": big,
                    "pad": if r.chance(1, 3) && first != usize::MAX { first as u64 + r.below(3 * first as u64) } else { 0 },
                    "receiver_proc": r.chance(1, 3)})
         } else {
